@@ -168,6 +168,40 @@ def check(ctx) -> None:
         txt = norm(t) if t is not None else ""
         bounded = txt == MAXT or (isinstance(t, ast.Call) and norm(t.func) == "min" and MAXT in [norm(a) for a in t.args])
         ctx.check("C32.timeout", j, bounded, f"`{norm(j)[:90]}` waits for `{txt or 'ever'}`, which is not bounded by the configured maximum: a timeout is reported later than maximum + grace (or never)", what=f"join bounded by the configured maximum ({txt[:50]})")
+    # the bounded wait is positive for every test case, the empty one included (ABSINT of the timeout expressions)
+    from sa.engine import peval as _pe
+
+    def _budget(expr, fn_, sizes, multiple=False):
+        out = []
+        for size in sizes:
+            selfobj = _pe.Obj("executor", fields={"_maximum_test_execution_timeout": 5, "_test_execution_time_per_statement": 1})
+            t_ = _pe.Obj("TestCase")
+            t_.methods["size"] = lambda size=size: size
+            env = {"self": selfobj, "test_case": t_, "test_cases": (t_, t_)}
+            out.append((size, _pe.Interp(resolver=_pe.repo_resolver(repo)).ev(expr, env, fn_._module)))
+        return out
+
+    exprs = []
+    first = next((j for j in joins if isinstance(next((k.value for k in j.keywords if k.arg == "timeout"), None), ast.Call)), None)
+    if first is not None:
+        exprs.append((ex, next(k.value for k in first.keywords if k.arg == "timeout"), "TestCaseExecutor.execute: first join"))
+    SUB = "pynguin.testcase.subprocess_executor"
+    if repo.has_module(SUB):
+        for qn_ in ("SubprocessTestCaseExecutor._calculate_timeout_for_single", "SubprocessTestCaseExecutor._calculate_timeout_for_multiple"):
+            f_ = repo.try_func(SUB, qn_)
+            if f_ is not None:
+                ctx.analysed(f_)
+                r_ = next((s_ for s_ in f_.body if isinstance(s_, ast.Return)), None)
+                if r_ is not None:
+                    exprs.append((f_, r_.value, qn_))
+    for fn_, e_, label in exprs:
+        try:
+            vals = _budget(e_, fn_, (0, 1, 3, 1000))
+        except (_pe.Undecided, _pe.Raises) as exc:
+            ctx.undecide("C32.timeout", fn_, f"{label}: {exc}")
+            continue
+        bad = [(sz, v) for sz, v in vals if not (isinstance(v, (int, float)) and v > 0)]
+        ctx.check("C32.timeout", e_, not bad, f"{label}: the time allowed for a test case of size {[b[0] for b in bad]} is {[b[1] for b in bad]}: the executor stops waiting at once and declares a test that terminates (the empty test case minimisation produces) timed out - or not, depending on thread scheduling", what=f"{label}: positive for sizes 0, 1, 3, 1000 ({[v for _s, v in vals]})", stmt=f"[budget] {label}")
     alive = [n for n in own_nodes(ex) if isinstance(n, ast.If) and norm(n.test) == "thread.is_alive()"]
     ok = len(alive) == 1
     if ok:
